@@ -2,7 +2,7 @@
     Only statements live here; each is closed by [exact] of a lemma proved in coq/UDial. *)
 From Coq Require Import List ZArith Bool Permutation.
 From V Require Import Gen.Params Lib.Hex Wire.Varint USpec.Model USpec.Proofs USpec.ProofsWire
-  UDial.Model UDial.Proofs UDial.Witness UDial.Retx UDial.ProofsRetx UDial.Reg UDial.ProofsReg.
+  UDial.Model UDial.Proofs UDial.Witness UDial.Retx UDial.ProofsRetx UDial.Reg UDial.ProofsReg UDial.Heap UDial.ProofsHeap.
 Import ListNotations.
 Open Scope Z_scope.
 
@@ -28,7 +28,9 @@ Proof. exact dial_k_wire_scid. Qed.
 Print Assumptions C02_dial_k_wire_scid.
 
 (** (c) Dial after dial: the k-th dial of a history is exactly the FIRST dial of the spec as the
-    caller wrote it (with the caller's edits so far) -- same wire, same own view, spec unchanged. *)
+    caller wrote it (with the caller's edits so far) -- same wire, same own view, spec unchanged.
+    In this value-level model "spec unchanged" holds by construction of [dial]; that the code's
+    writes really go to objects of the connection's own is C02_dial_leaves_spec_objects below. *)
 Theorem C02_redial_as_first : forall ops1 st scid o ops2 st' views,
   run st (ops1 ++ ODial scid o :: ops2) = Some (st', views) ->
   exists w, dial (edits st ops1) scid o = Some (edits st ops1, w) /\
@@ -59,10 +61,14 @@ Theorem C02_dial_idempotent_params : forall sup rnd js1 js2 ps,
 Proof. exact dial_list_idem. Qed.
 Print Assumptions C02_dial_idempotent_params.
 
-(** (d) UTransport with a nil QUICSpec builds exactly the plain Transport's connection. *)
-Theorem C02_nil_spec : forall e, u_dial e None = plain_dial e.
+(** (d) UTransport with a nil QUICSpec builds exactly the plain Transport's connection -- BY
+    CONSTRUCTION of the model: u_dial follows UTransport.dial/doDial statement by statement, and
+    with spec = nil every spec-dependent statement is skipped, which leaves the statements of
+    Transport.dial/doDial. The proof is a computation; clause (d) is carried by the NilSpec
+    correspondence cases and the simdial differential, not by this statement. *)
+Theorem C02_nil_spec_by_construction : forall e, u_dial e None = plain_dial e.
 Proof. exact nil_spec_is_plain. Qed.
-Print Assumptions C02_nil_spec.
+Print Assumptions C02_nil_spec_by_construction.
 
 (** The code before the repair (legacy_dial: the same steps on the spec's OWN extension
     objects): whatever the second dial's inputs, its extension 57 is byte for byte the first
@@ -110,11 +116,13 @@ Proof. exact pop_check_covers. Qed.
 Print Assumptions C02_initial_retx_resent_is_lost.
 
 (** ... no packing call, loss or acknowledgement ends in an error, whatever the builder, the
-    layout, the ranges taken ... *)
-Theorem C02_initial_retx_never_errors : forall planned layout st o st' res,
+    layout, the ranges taken -- BY CONSTRUCTION: the model of the repaired MarshalInitialPacketPayload
+    has no error branch left (the old one is C02_initial_retx_legacy_error_iff); that the code has
+    none is what the Retx correspondence (result of every packing call) and the monitors check ... *)
+Theorem C02_initial_retx_never_errors_by_construction : forall planned layout st o st' res,
   rstep planned layout st o = Some (st', res) -> is_err res = false.
 Proof. exact rstep_never_errors. Qed.
-Print Assumptions C02_initial_retx_never_errors.
+Print Assumptions C02_initial_retx_never_errors_by_construction.
 
 (** ... and for EVERY history of losses, acknowledgements and packing calls no result is an
     error and every ClientHello byte the first flight carried is still acknowledged, outstanding
@@ -250,13 +258,43 @@ Print Assumptions C02_ex_add_dial_refuted.
 
 (** (b) A spec-driven Initial packet that carries frames (a retransmission, a PING probe) shares
     its datagram with nothing, whether or not Handshake data is ready (PackCoalescedPacket after
-    fixes/C02-spec-initial-travels-alone.patch); before, the Handshake packet was put behind it. *)
-Theorem C02_spec_initial_travels_alone : forall frames ping hs,
+    fixes/C02-spec-initial-travels-alone.patch); before, the Handshake packet was put behind it.
+    BY CONSTRUCTION: [coalesced_count] is the transcription of that decision; the tie is the
+    RCoalesce correspondence (number of packets in the real datagram). *)
+Theorem C02_spec_initial_travels_alone_by_construction : forall frames ping hs,
   frames <> [] \/ ping = true -> coalesced_count frames ping hs = 1.
 Proof. exact spec_initial_travels_alone. Qed.
-Print Assumptions C02_spec_initial_travels_alone.
+Print Assumptions C02_spec_initial_travels_alone_by_construction.
 
 Example C02_ex_legacy_coalesced :
   legacy_coalesced_count [(0, 300)] false true = 2 /\ coalesced_count [(0, 300)] false true = 1.
 Proof. exact legacy_coalesced. Qed.
 Print Assumptions C02_ex_legacy_coalesced.
+
+(** (c) The ClientHelloSpec as objects (model UDial.Heap): uTLS and the connection set-up write into
+    the extension objects they are handed (transport parameter list and byte cache, key shares,
+    server name); the repaired newUClientConnection hands them objects it allocated itself
+    (dialClientHelloSpec). Every object that existed before the dial -- the spec's own, shared
+    ones included -- is the same afterwards ... *)
+Theorem C02_dial_leaves_spec_objects : forall sup rnd scid o h exts h2 own,
+  heap_dial sup rnd scid o h exts = Some (h2, own) ->
+  forall b, (b < length h)%nat -> hget h2 b = hget h b.
+Proof. exact heap_dial_leaves_old. Qed.
+Print Assumptions C02_dial_leaves_spec_objects.
+
+(** ... the connection's own transport parameter object holds exactly what the value-level model
+    UDial.Model.dial puts on the wire (so the theorems above speak about this dial) ... *)
+Theorem C02_dial_heap_wire : forall sup rnd scid o ps cache h2 own,
+  heap_dial sup rnd scid o [OTP ps cache] [0%nat] = Some (h2, own) ->
+  exists v ps' ov, USpec.Model.dial sup rnd (oJs o) scid ps = Some (v, ps', ov) /\
+    own = [1%nat] /\ hget h2 1 = OTP ps' (Some (marshal ps')) /\ hget h2 0 = OTP ps cache.
+Proof. exact heap_dial_wire. Qed.
+Print Assumptions C02_dial_heap_wire.
+
+(** ... whereas before the repair the spec's own object was rewritten and its bytes cached. *)
+Theorem C02_legacy_dial_writes_spec_object : forall sup rnd scid o ps h2 own,
+  legacy_heap_dial sup rnd scid o [OTP ps None] [0%nat] = Some (h2, own) ->
+  exists v ps' ov, USpec.Model.dial sup rnd (oJs o) scid ps = Some (v, ps', ov) /\
+    hget h2 0 = OTP ps' (Some (marshal ps')).
+Proof. exact legacy_heap_dial_writes_spec. Qed.
+Print Assumptions C02_legacy_dial_writes_spec_object.
